@@ -124,6 +124,7 @@ class Ctx(object):
         apply_adt_moves(facts)
         apply_variant_shapes(facts)
         apply_aliases(facts)
+        apply_param_orders(facts)
         apply_field_aliases(facts)
         self.fns = {}
         for fn in facts['fns']:
@@ -668,6 +669,62 @@ def apply_adt_moves(facts):
     facts.clear()
     facts.update(out)  # in place: the fact set is shared by every property evaluated on it
     return facts
+
+
+def apply_param_orders(facts):
+    """A non-public function of the oracle vocabulary whose parameters were only reordered (same names, another order) is
+    read in the order the tables know: its parameter list and the argument list of every call are permuted back.
+    Done once per fact set, in place."""
+    meta = facts.setdefault('meta', {})
+    if meta.get('param_orders') is not None:
+        return meta['param_orders']
+    meta['param_orders'] = {}
+    try:
+        with open(os.path.join(VERIF, 'spec', 'vocabulary_sigs.json')) as fh:
+            sigs = json.load(fh)
+    except (IOError, ValueError):
+        return {}
+    perms = {}
+    for fn in facts['fns']:
+        k = S.norm_path(fn['path'])
+        want = (sigs.get(k) or {}).get('params')
+        if not want or None in want or fn.get('vis') == 'pub' or fn.get('impl_trait') or 'hir' not in fn:
+            continue
+        have = [(q.get('name') if q.get('k') == 'Bind' else None) for q in fn.get('params', [])]
+        if None in have or have == want or sorted(have) != sorted(want) or len(set(have)) != len(have):
+            continue
+        if 'self' in have and have[0] != 'self':
+            continue
+        perm = [have.index(nm) for nm in want]   # position in the current list of the parameter the tables expect at each place
+        perms[k] = perm
+        fn['params'] = [fn['params'][i] for i in perm]
+        if fn.get('inputs') and len(fn['inputs']) == len(perm):
+            fn['inputs'] = [fn['inputs'][i] for i in perm]
+    if not perms:
+        return {}
+
+    def fix(n):
+        if isinstance(n, dict):
+            k = n.get('k')
+            if (k == 'Call' and isinstance(n.get('f'), dict) and 'args' in n) or (k == 'MethodCall' and 'recv' in n and 'args' in n):
+                cp = S.norm_path(H.callee_path(n) or '')
+                perm = perms.get(cp)
+                if perm is not None:
+                    args = H.call_args(n)
+                    if len(args) == len(perm):
+                        new = [args[i] for i in perm]
+                        if k == 'MethodCall':
+                            n['recv'], n['args'] = new[0], new[1:]
+                        else:
+                            n['args'] = new
+            for v in list(n.values()):
+                fix(v)
+        elif isinstance(n, list):
+            for v in n:
+                fix(v)
+    fix(facts['fns'])
+    meta['param_orders'] = perms
+    return perms
 
 
 def apply_variant_shapes(facts):
